@@ -111,6 +111,33 @@ def run(ctx):
 
     # ---- (2) bit widths, exhaustively over the int16 level domain
     for fname, file_ in (("bit_width_for_max", PR), ("bit_width_for_max", PW)):
+        if file_ == PW and not [f for f in P.by_name.get(fname, []) if P.rel(f.file) == PW]:
+            # the writer computes the width inside its level encoder: execute that for every level and
+            # observe the width handed to the RLE encoder
+            from ..rules import sem
+            fn = P.fn("encode_levels", PW)
+            bad = None
+            seen_w = 0
+            try:
+                for v in range(1, 32768):
+                    got = []
+                    hooks = {"malloc": lambda ev, a, it: sem.Ptr("tmp", 0, 4), "free": lambda ev, a, it: None,
+                             "carquet_rle_encode_all": lambda ev, a, it, got=got: got.append(a[2]) or 0,
+                             "carquet_rle_encode_levels": lambda ev, a, it, got=got: got.append(a[2]) or 0,
+                             "carquet_buffer_init": lambda ev, a, it: None, "carquet_buffer_destroy": lambda ev, a, it: None,
+                             "carquet_buffer_append": lambda ev, a, it: 0, "carquet_buffer_append_byte": lambda ev, a, it: 0}
+                    sem.run(P, fn, [sem.Ptr("lv", 0, 2), 0, v, sem.Ptr("out", 0, 1)], hooks=hooks, single=True, budget=20000)
+                    seen_w += 1
+                    if got != [v.bit_length()]:
+                        bad = (v, got, v.bit_length())
+                        break
+            except sem.Inconclusive as ex:
+                ctx.inconclusive("R5.spec", "level-width|%s:%s" % (file_, fn.name), P.where(fn.body), str(ex))
+                continue
+            ctx.ob("R5.spec", "level-width|%s:%s" % (file_, fn.name), P.where(fn.body),
+                   "the width handed to the RLE level encoder is the number of bits of max_level, for every level 1..32767 "
+                   "(exhaustive abstract execution)", bad is None, "m=%s gives %s, needs %s" % bad if bad else "%d values" % seen_w)
+            continue
         fn = P.fn(fname, file_)
         bad = None
         try:
